@@ -299,8 +299,38 @@ func isExportedFn(fn *ssa.Function) bool {
 
 func (li *LockInfo) entryFromCallers(fn *ssa.Function) lockState {
 	p := li.P
-	if isExportedFn(fn) || fn.Parent() != nil {
+	if isExportedFn(fn) {
 		return lockState{}
+	}
+	if fn.Parent() != nil {
+		// a function literal invoked synchronously (plain call, not go/defer) from its parent
+		// runs inside the parent's critical section
+		sites := p.callers[fn]
+		if len(sites) == 0 {
+			return lockState{}
+		}
+		var acc lockState
+		for _, cs := range sites {
+			if _, isCall := cs.Instr.(*ssa.Call); !isCall || cs.Caller != fn.Parent() {
+				return lockState{}
+			}
+			st := li.stateAt(cs.Instr)
+			mapped := lockState{}
+			for id, mode := range st {
+				mapped[id] = mode // captured single-store cells resolve to the parent's roots
+				for _, fv := range fn.FreeVars {
+					if b := freeVarBinding(fv); b != nil && rootExpr(b) == id.Root {
+						mapped[lockID{Root: "fv:" + fv.Name(), Field: id.Field, Class: id.Class}] = mode
+					}
+				}
+			}
+			if acc == nil {
+				acc = mapped
+			} else {
+				acc = meet(acc, mapped)
+			}
+		}
+		return acc
 	}
 	sites := p.callers[fn]
 	if len(sites) == 0 {
@@ -317,6 +347,9 @@ func (li *LockInfo) entryFromCallers(fn *ssa.Function) lockState {
 		st := li.stateAt(cs.Instr)
 		mapped := lockState{}
 		args := cs.Instr.Common().Args
+		if len(args) > 0 && fn.Signature.Recv() != nil && isFresh(args[0]) {
+			continue // constructor: the receiver is not shared yet
+		}
 		for id, mode := range st {
 			for i, a := range args {
 				if i < len(fn.Params) && rootExpr(a) == id.Root {
@@ -420,16 +453,68 @@ func (p *Prog) fieldAccesses(owner string, fields map[string]bool) []access {
 
 // isFresh: the owner object was allocated in this function (constructor idiom)
 // and the access happens before it can be shared.
-func isFresh(v ssa.Value) bool {
+func isFresh(v ssa.Value) bool { return isFreshD(v, 0) }
+
+func isFreshD(v ssa.Value, d int) bool {
+	if d > 4 {
+		return false
+	}
 	switch x := v.(type) {
 	case *ssa.Alloc:
 		return true
 	case *ssa.UnOp:
 		if sv := singleStore(x.X); sv != nil {
-			return isFresh(sv)
+			return isFreshD(sv, d+1)
 		}
+		// a component of an object that is itself still private to this function
+		if fa, ok := x.X.(*ssa.FieldAddr); ok && isFreshD(fa.X, d+1) {
+			return true
+		}
+	case *ssa.Extract:
+		if call, ok := x.Tuple.(*ssa.Call); ok {
+			return returnsFresh(call, x.Index, d)
+		}
+	case *ssa.Call:
+		return returnsFresh(x, 0, d)
+	case *ssa.Phi:
+		for _, e := range x.Edges {
+			if !isFreshD(e, d+1) {
+				return false
+			}
+		}
+		return len(x.Edges) > 0
 	}
 	return false
+}
+
+// returnsFresh: the callee's idx-th result is, on every return, nil or an object
+// allocated inside the callee (a constructor): the caller holds the only reference.
+func returnsFresh(call *ssa.Call, idx, d int) bool {
+	callee := call.Call.StaticCallee()
+	if callee == nil || len(callee.Blocks) == 0 || callee.Pkg == nil || callee.Pkg.Pkg.Path() != absnfsPath {
+		return false
+	}
+	n := 0
+	for _, b := range callee.Blocks {
+		if b == callee.Recover {
+			continue
+		}
+		for _, in := range b.Instrs {
+			r, ok := in.(*ssa.Return)
+			if !ok || idx >= len(r.Results) {
+				continue
+			}
+			v := retVal(r, idx)
+			if isNilConst(v) {
+				continue
+			}
+			n++
+			if !isFreshD(v, d+1) {
+				return false
+			}
+		}
+	}
+	return n > 0
 }
 
 // checkProtected reports accesses of spec fields without the lock.
